@@ -2,6 +2,8 @@ package sx
 
 import (
 	"fmt"
+
+	"golang.org/x/tools/go/ssa"
 )
 
 // VrfPkg is the import path of the harness support package (exists only in the overlay).
@@ -127,6 +129,19 @@ func init() {
 	RegisterIntrinsic(p+"String", func(x *Exec, s *State, c *CallCtx) Value {
 		return x.symString(x.concreteName(c.Args[0]), int(x.concreteInt(c.Args[1], "maxLen")), false)
 	})
+	RegisterIntrinsic(p+"Digits", func(x *Exec, s *State, c *CallCtx) Value {
+		name := x.concreteName(c.Args[0])
+		n := int(x.concreteInt(c.Args[1], "n"))
+		fresh := x.inputByName[name] == nil
+		sv := x.symString(name, n, true)
+		if fresh {
+			for _, b := range sv.B {
+				x.Assumptions = append(x.Assumptions, x.tb.ULe(x.tb.BV(8, '0'), b), x.tb.ULe(b, x.tb.BV(8, '9')))
+				x.tb.VarRange(b.Name, 8, '0', '9')
+			}
+		}
+		return sv
+	})
 	RegisterIntrinsic(p+"StringN", func(x *Exec, s *State, c *CallCtx) Value {
 		return x.symString(x.concreteName(c.Args[0]), int(x.concreteInt(c.Args[1], "n")), true)
 	})
@@ -165,6 +180,41 @@ func init() {
 		} else {
 			s.Known[id] = cond
 		}
+		return nil
+	})
+	// Fork(v): case split on the small-range integer v. The state is split into one state per
+	// feasible value, each tagged so that they are not merged again before the matching Join().
+	blockingIntrinsics[p+"Fork"] = func(x *Exec, s *State, c *CallCtx) (Value, bool) {
+		v := c.Args[0].(*Term)
+		if v.IsConst() {
+			s.Tags = append(s.Tags, int(v.K))
+			return v, false
+		}
+		if v.Hi-v.Lo > 256 {
+			x.fail("zzvrf.Fork on a value with range [%d,%d]", v.Lo, v.Hi)
+		}
+		dst, _ := c.Instr.(*ssa.Call)
+		for k := v.Lo; k <= v.Hi; k++ {
+			ns := s.clone()
+			kv := x.tb.BV(v.W, k)
+			if !x.constrain(ns, x.tb.Eq(v, kv)) {
+				continue
+			}
+			ns.Tags = append(ns.Tags, int(k))
+			nf := ns.top()
+			if dst != nil {
+				x.set(nf, dst, kv)
+			}
+			nf.PC++
+			x.push(ns)
+		}
+		s.dead = true
+		return nil, true
+	}
+	RegisterIntrinsic(p+"Join", func(x *Exec, s *State, c *CallCtx) Value {
+		// Join ends every case split in force
+		s.Tags = nil
+		// re-queue so that sibling states reaching this point are merged
 		return nil
 	})
 	RegisterIntrinsic(p+"Symbolic", func(x *Exec, s *State, c *CallCtx) Value { return x.tb.True })
